@@ -10,7 +10,7 @@ RULE = ("parameter sets = switch vector x magnitudes: every on/off combination o
         "combinations, enumerated exhaustively (x1 magnitude draw quick, x4 thorough) plus Hypothesis-sampled sets; "
         "magnitudes: centres 0-4096 px, |pixel| 10-200 um, distance 5e4-1e6 um, tilts +-0.2 rad, wedge/chi +-30 deg, "
         "|t|<=1000 um, wavelength 0.1-1.5 A; 24 peaks per set anywhere on a 4096^2 detector incl. the pixel "
-        "nearest the beam centre, omega in [-720,720], one set in 16 with integer-typed sc/fc/omega arrays; oracle = geometry written in the harness from the "
+        "nearest the beam centre, omega in [-720,720], one set in 16 with integer-typed sc/fc/omega arrays, one in 16 with columns that are strided views of a row-major table; oracle = geometry written in the harness from the "
         "documentation, compared with transform.py (Python), Ctransform / raw C kernels, columnfile fast and "
         "slow routes (fresh objects and update / edit-parameters / update histories on one object), numba point_by_point copy, get_local_gv, PixelLUT, refinegrains.assignlabels/compute_gv on one object across in-place parameter edits (one case in four); 1, 2, 3, 5 or 24 peaks; non-trivial = >=3 switches on, or omegasign=-1, "
         "or an off-diagonal flip, or (chi!=0 and t!=0); distinct = switch index x magnitude seed")
@@ -72,6 +72,11 @@ def params_from(index, mseed):
         sc = np.rint(sc).astype(np.int64)
         fc = np.rint(fc).astype(np.int64)
         om = np.rint(om).astype(np.int64)
+    elif index % 16 == (mseed + 11) % 16:
+        # columns that are strided views of a row-major table (one row per peak)
+        tab = np.empty((NPK, 5))
+        tab[:, 0], tab[:, 2], tab[:, 4] = sc, fc, om
+        sc, fc, om = tab[:, 0], tab[:, 2], tab[:, 4]
     # number of peaks: usually 24, sometimes 1, 2, 3 (a 3 x 3 block is its own transpose's shape) or 5
     npk = NPKS[(index // 3 + mseed) % len(NPKS)]
     return p, sc[:npk], fc[:npk], om[:npk]
